@@ -72,6 +72,7 @@ type request struct {
 	target   conn.Addr
 	payLen   int
 	junkSalt bool // junk bearing this salt was presented before the request itself
+	wild     bool // timestamp absurdly far from the clock: must be refused (no arithmetic on it)
 
 	presented  bool // presented before (held key kinds only matter)
 	accepted   bool
@@ -370,6 +371,14 @@ func (h *harness) judge(outs []outcome, t0, t1 time.Time) {
 			}
 			continue
 		}
+		if r.wild {
+			if n > 0 {
+				s.Fail("c03.stale-accepted{wild}", "request %d with timestamp %d (server clock %d: %d seconds apart) was accepted", r.id, r.ts, t0.Unix(), r.ts-t0.Unix())
+				return
+			}
+			r.presented = true
+			continue
+		}
 		if r.accepted {
 			gap := t0.Sub(r.acceptedAt)
 			if n > 0 {
@@ -582,10 +591,18 @@ func Run(s *simrt.Sim) {
 		switch c := s.Choose(20); {
 		case c < 4: // fresh request
 			sk := h.skew()
+			wild := s.GenChance(10)
+			if wild {
+				// timestamps absurdly far from the server clock (arithmetic on them must not wrap
+				// into the acceptable band)
+				sk = util.Pick(s, []int64{1 << 55, -(1 << 55), 1<<55 + 7, 3 << 55, -(5 << 55) - 30, 1<<62 - 7, -(1 << 62), 1 << 33, 1<<34 + 29, -(1 << 40), 1 << 53})
+				s.Probe("c03.wild-timestamp")
+			}
 			r := h.newRequest(kindGood, time.Now().Unix()+sk, nil)
 			if r == nil {
 				return
 			}
+			r.wild = wild
 			note("F", "fresh r%d skew %+ds", r.id, sk)
 			group = []*request{r}
 		case c < 7: // advance
